@@ -95,6 +95,14 @@ NORMAL_OF = {"CvtToFuzzyZScore": "NormalizeZScore", "CvtToFuzzyCat": "NormalizeC
 
 
 def apply(cmd, inputs, params):
+    try:
+        inputs = [[fr(c) for c in col] for col in inputs]  # float cells (from an approximate upstream step) become their exact value
+    except ValueError:
+        return ("unspec", "non-finite input")
+    return _apply(cmd, inputs, params)
+
+
+def _apply(cmd, inputs, params):
     p = params
     n = len(inputs)
     approx = False
@@ -214,7 +222,7 @@ def apply(cmd, inputs, params):
             q.setdefault("TrueThresholdZScore", 1)
             q.setdefault("FalseThresholdZScore", -1)
             q["StartVal"], q["EndVal"] = -1, 1
-        r = apply(NORMAL_OF[cmd], inputs, q)
+        r = _apply(NORMAL_OF[cmd], inputs, q)
         if r[0] != "ok":
             return r
         return ("ok", [clamp(c) if not isinstance(c, float) else max(-1.0, min(1.0, c)) for c in r[1]], r[2])
